@@ -225,7 +225,7 @@ def mk_lap_sample(cls):
             batch = E.call(E.getattr(v.obj, "sample_batch"), bs, rng)
             ratio = None
         unit = E.st.ghost.get("last_uniform_unit")
-        cs_t = E.st.ghost.get("last_cumsum")
+        cs_t = (E.st.ghost.get("cumsums") or [None])[0]  # the sampling distribution (first cumulative sum of the call)
         idx = E.st.ghost.get("last_searchsorted")
         if unit is None or cs_t is None or idx is None:
             E.st.fail("sample.uses_cumsum_and_uniform", "no proportional draw recorded")
@@ -243,12 +243,15 @@ def mk_lap_sample(cls):
             # interval law on the point drawn: c[i-1] < x_q <= c[i], 0 < x_q < S
             pts = E.st.ghost.get("last_uniform_points")
 
+            E.oblige("sample.total_priority_positive", Sym(S > 0))
+            E.st.oblige_forall("sample.points_inside_total", [INT], lambda q: z3.Implies(z3.And(q >= 0, q < bs.z), z3.And(C.as_real(pts.at(q)) > 0, C.as_real(pts.at(q)) < S)), hint="q", using=["uniform.unit", "uniform.def"])
+
             def goal(q):
                 i = C.as_int(idx.at(q))
                 x = C.as_real(pts.at(q))
                 lo = z3.If(i >= 1, cs(i - 1), z3.RealVal(0))
-                return z3.Implies(z3.And(q >= 0, q < bs.z), z3.And(i >= 0, i < C.to_z3(ln), weight(i) > 0, lo < x, x <= cs(i), x > 0, x < S))
-            E.st.oblige_forall("sample.interval_law", [INT], goal, hint="q")
+                return z3.Implies(z3.And(q >= 0, q < bs.z), z3.And(i >= 0, i < C.to_z3(ln), weight(i) > 0, lo < x, x <= cs(i)))
+            E.st.oblige_forall("sample.interval_law", [INT], goal, hint="q", using=["searchsorted", "cumsum", "PWF", "sample.points_inside_total"])
         else:
             sampling_law(E, "sample", idx, ln, weight, bs, unit, cs, S)
         _row_is_stored(E, "sample", v, batch, idx, bs)
